@@ -12,6 +12,7 @@ import (
 	"github.com/jirenius/go-res/resprot"
 	nats "github.com/nats-io/nats.go"
 	"verif/harness/internal/gen"
+	"verif/harness/internal/natsrv"
 	"verif/harness/internal/wire"
 )
 
@@ -36,6 +37,8 @@ type scriptConn struct {
 	mu     sync.Mutex
 	ch     chan *nats.Msg
 	subbed bool
+	nc     *nats.Conn         // a real connection to the embedded server: subscriptions are real
+	sub    *nats.Subscription // so that their release can be observed
 }
 
 func (c *scriptConn) Publish(subject string, payload []byte) error { return nil }
@@ -67,11 +70,16 @@ func (c *scriptConn) ChanSubscribe(subject string, ch chan *nats.Msg) (*nats.Sub
 	if !c.subOK {
 		return nil, errors.New("subscribe failed")
 	}
+	sub, err := c.nc.ChanSubscribe(subject, ch)
+	if err != nil {
+		return nil, err
+	}
 	c.mu.Lock()
 	c.ch = ch
 	c.subbed = true
+	c.sub = sub
 	c.mu.Unlock()
-	return &nats.Subscription{Subject: subject}, nil
+	return sub, nil
 }
 
 func (c *scriptConn) ChanQueueSubscribe(subject, queue string, ch chan *nats.Msg) (*nats.Subscription, error) {
@@ -143,6 +151,16 @@ func (d *sendreqDom) Gen(r *gen.R, tier string, emit func(string)) {
 	for _, l := range lines {
 		emit(l)
 	}
+	// a real service over the embedded NATS server
+	reps := 2
+	if tier == "thorough" {
+		reps = 10
+	}
+	for i := 0; i < reps; i++ {
+		for _, sc := range []string{"resp", "pre", "silent", "slow", "pubfail", "many"} {
+			emit(wire.Line("natsend", sc))
+		}
+	}
 }
 
 func (d *sendreqDom) Exec(a []string) string {
@@ -158,10 +176,17 @@ func (d *sendreqDom) Exec(a []string) string {
 
 func (d *sendreqDom) execNow(a []string) string {
 	return Safe(func() string {
+		if len(a) >= 2 && a[0] == "natsend" {
+			return natSend(a)
+		}
 		if len(a) < 6 || a[0] != "send" {
 			return "bad-op"
 		}
-		c := &scriptConn{subOK: a[2] == "T", pubOK: a[3] == "T"}
+		nc, err := sharedNATS()
+		if err != nil {
+			return "nats-failed"
+		}
+		c := &scriptConn{subOK: a[2] == "T", pubOK: a[3] == "T", nc: nc}
 		timeout, _ := strconv.Atoi(a[4])
 		for i := 6; i+1 < len(a); i += 2 {
 			t, _ := strconv.Atoi(a[i])
@@ -193,9 +218,8 @@ func (d *sendreqDom) execNow(a []string) string {
 		}
 		unsub := "-"
 		if c.subbed {
-			// nats.Subscription.Unsubscribe on a zero subscription cannot be observed; the model's claim
-			// is checked structurally: SendRequest defers sub.Unsubscribe right after a successful subscribe
-			unsub = "T"
+			// the inbox subscription is a real one on the embedded server's connection
+			unsub = wire.Bool(!c.sub.IsValid())
 		}
 		return out + " ext=[" + strings.Join(exts, ",") + "] unsub=" + unsub
 	})
@@ -220,4 +244,127 @@ func errCode(r resprot.Response) string {
 		return ""
 	}
 	return r.Error.Code + "|" + r.Error.Message
+}
+
+var (
+	natsOnce sync.Once
+	natsConn *nats.Conn
+	natsErr  error
+)
+
+// sharedNATS is one client connection to the embedded server, used for the inbox
+// subscriptions of the scripted sends.
+func sharedNATS() (*nats.Conn, error) {
+	natsOnce.Do(func() {
+		srv, err := natsrv.Shared()
+		if err != nil {
+			natsErr = err
+			return
+		}
+		natsConn, natsErr = srv.Connect()
+	})
+	return natsConn, natsErr
+}
+
+// failPubConn is a real connection whose PublishRequest fails.
+type failPubConn struct{ *nats.Conn }
+
+func (c failPubConn) PublishRequest(subject, reply string, data []byte) error {
+	return errors.New("publish failed")
+}
+
+// natSend: SendRequest against a real res.Service over the embedded server; reports the
+// outcome class, the extensions, and the client connection's subscription count afterwards.
+func natSend(a []string) string {
+	srv, err := natsrv.Shared()
+	if err != nil {
+		return "nats-failed"
+	}
+	snc, err := srv.Connect()
+	if err != nil {
+		return "nats-failed"
+	}
+	cnc, err := srv.Connect()
+	if err != nil {
+		return "nats-failed"
+	}
+	defer cnc.Close()
+	s := res.NewService("ns")
+	s.SetLogger(nil)
+	s.Handle("m",
+		res.Call("ok", func(r res.CallRequest) { r.OK(map[string]int{"v": 1}) }),
+		res.Call("pre", func(r res.CallRequest) {
+			r.Timeout(600 * time.Millisecond)
+			time.Sleep(250 * time.Millisecond)
+			r.OK(map[string]int{"v": 2})
+		}),
+		res.Call("slow", func(r res.CallRequest) {
+			time.Sleep(300 * time.Millisecond)
+			r.OK(nil)
+		}),
+	)
+	served := make(chan struct{})
+	s.SetOnServe(func(*res.Service) { close(served) })
+	done := make(chan error, 1)
+	go func() { done <- s.Serve(snc) }()
+	select {
+	case <-served:
+	case <-time.After(5 * time.Second):
+		return "serve-hung"
+	}
+	snc.Flush() // the service's subscriptions have reached the server
+	defer func() {
+		s.Shutdown()
+		<-done
+	}()
+	var exts []string
+	var emu sync.Mutex
+	onExt := func(d time.Duration) {
+		emu.Lock()
+		exts = append(exts, strconv.Itoa(int(d/time.Millisecond)))
+		emu.Unlock()
+	}
+	class := func(r resprot.Response) string {
+		switch {
+		case r.HasError() && r.Error.Code == res.CodeTimeout:
+			return "timeout"
+		case r.HasError():
+			return "error:" + r.Error.Code
+		case r.HasResult():
+			return "result:" + string(r.Result)
+		}
+		return "other"
+	}
+	var out string
+	switch a[1] {
+	case "resp":
+		out = class(resprot.SendRequest(cnc, "call.ns.m.ok", nil, time.Second, onExt))
+	case "pre":
+		out = class(resprot.SendRequest(cnc, "call.ns.m.pre", nil, 150*time.Millisecond, onExt))
+	case "silent":
+		out = class(resprot.SendRequest(cnc, "call.nobody.m.ok", nil, 100*time.Millisecond, onExt))
+	case "slow":
+		out = class(resprot.SendRequest(cnc, "call.ns.m.slow", nil, 100*time.Millisecond, onExt))
+		time.Sleep(250 * time.Millisecond) // the late response finds no subscription
+	case "pubfail":
+		out = class(resprot.SendRequest(failPubConn{cnc}, "call.ns.m.ok", nil, time.Second, onExt))
+	case "many":
+		for i := 0; i < 40; i++ {
+			var r resprot.Response
+			switch i % 3 {
+			case 0:
+				r = resprot.SendRequest(cnc, "call.ns.m.ok", nil, time.Second, onExt)
+			case 1:
+				r = resprot.SendRequest(cnc, "call.nobody.m.ok", nil, 5*time.Millisecond, onExt)
+			default:
+				r = resprot.SendRequest(failPubConn{cnc}, "call.ns.m.ok", nil, time.Second, onExt)
+			}
+			if i < 3 {
+				out += class(r) + ","
+			}
+		}
+	default:
+		return "bad-op"
+	}
+	return fmt.Sprintf("%s ext=[%s] subs=%d", out, strings.Join(exts, ","), cnc.NumSubscriptions())
 }
